@@ -11,7 +11,7 @@ Judge(e) ==
       w == World(e.dims[1], e.dims[2], e.base, e.code)
       PL == [i \in 1..Len(L) |-> <<e.pos[L[i][1]], e.pos[L[i][2]]>>]
       a == IF e.aligned THEN Area8(PL) ELSE e.area
-      say(ok, why) == ok \/ (PrintT(<<"BAD", l, why>>) /\ FALSE)
+      say(ok, why) == IF ok THEN TRUE ELSE (PrintT(<<"BAD", l, why>>) /\ FALSE)
       nonCornerDeg2 == \A i \in 1..Len(PL) : \A j \in 1..2 :
                          IsCorner(PL[i][j]) \/ Degree(PL, PL[i][j]) = 2
   IN /\ say(EvenDegree(L), "odd-degree-endpoint")
@@ -21,8 +21,8 @@ Judge(e) ==
      /\ (e.aligned => say(nonCornerDeg2, "degree-not-2-away-from-degenerate-corner"))
      /\ (e.aligned => say(a = e.area, "projection-area-mismatch"))
      \* not demanded by the property (orientation convention, segment direction, cell-internal order): drift only
-     /\ ((e.aligned => SameBag(PL, WorldLines(w))) \/ PrintT(<<"DRIFT", l>>))
-Next == /\ l <= Len(Trace) /\ l' = l + 1 /\ (Judge(Trace[l]) \/ TRUE)
+     /\ (IF (e.aligned => SameBag(PL, WorldLines(w))) THEN TRUE ELSE PrintT(<<"DRIFT", l>>))
+Next == /\ l <= Len(Trace) /\ l' = l + 1 /\ (IF Judge(Trace[l]) THEN TRUE ELSE TRUE)
 Spec == Init /\ [][Next]_l
 Report == l = Len(Trace) + 1 => PrintT(<<"CONSUMED", l - 1>>)
 =============================================================================
